@@ -76,10 +76,10 @@ theorem expand_raises_iff (inp : Input) :
     (∃ x, expand inp = .error x) ↔ ¬ Supported inp.edges := by
   constructor
   · rintro ⟨x, hx⟩ hs
-    obtain ⟨st, h1, _⟩ := stepEdges_ok inp.edges (St.init inp) hs
+    obtain ⟨st, h1, _⟩ := stepEdges_ok inp.policy inp.edges (St.init inp) hs
     simp [expand, h1] at hx
   · intro hs
-    obtain ⟨x, hx⟩ := stepEdges_bad inp.edges (St.init inp) hs
+    obtain ⟨x, hx⟩ := stepEdges_bad inp.policy inp.edges (St.init inp) hs
     exact ⟨x, by simp [expand, hx]⟩
 
 example : ¬ Supported [⟨"", ["a"], ["b"], [⟨"d", ["discrete"]⟩]⟩] := by
@@ -118,87 +118,37 @@ theorem flow_sum_sign (S : List Key) (σ : String → K) :
 example : sumEqn [("o1.i", false), ("o2.i", false)] = .sum [("o1.i", false), ("o2.i", false)] ∧
     sumEqn [("o.i", false), ("c.a.i", true)] = .sum [("o.i", true), ("c.a.i", false)] := by decide
 
-/-- The pass emits `f = 0` exactly for the flow symbols no end of a connect clause refers to
-    (under either face). -/
-theorem unconnected_zero (inp : Input) (eqs : List Eqn) (h : expand inp = .ok eqs) (f : String) :
+/-- The code as it stands (`byName`) emits `f = 0` exactly for the flow symbols no end of a
+    connect clause refers to, under either face. -/
+theorem unconnected_zero (inp : Input) (eqs : List Eqn) (h : expand inp = .ok eqs)
+    (hp : inp.policy = .byName) (f : String) :
     Eqn.zero f ∈ eqs ↔ f ∈ inp.flowSyms ∧ ∀ b, ¬ Touched (flowEdges inp.edges) (f, b) := by
-  obtain ⟨_, st, _, he, adv, _⟩ := expand_ok inp eqs h
-  subst he
-  rw [touched_key_iff]
-  have hd := adv.disc f
-  simp only [St.init] at hd
-  rw [← hd]
-  simp only [finish, List.mem_append, List.mem_map]
-  constructor
-  · rintro ((h1 | ⟨S, _, h1⟩) | ⟨n, hn, h1⟩)
-    · rw [adv.eqs] at h1
-      simp [St.init] at h1
-    · unfold sumEqn at h1
-      split at h1 <;> cases h1
-    · cases h1
-      exact hn
-  · intro h1
-    exact Or.inr ⟨f, h1, rfl⟩
+  rw [zero_mem_core inp eqs h, hp, mem_popped_byName]
+  simp
 
 example : ∃ eqs, expand exInput = .ok eqs ∧ Eqn.zero "c1.b.i" ∈ eqs ∧ Eqn.zero "c1.a.i" ∉ eqs := by
   refine ⟨_, rfl, ?_, ?_⟩ <;> decide
 
 /-- The equations derived by the pass have exactly the solutions of the reference connection
-    semantics — for every flat class the pass accepts, whatever the number, order and shape of
-    its connect clauses. -/
+    semantics of the property text — for every flat class the pass accepts, whatever the number,
+    order and shape of its connect clauses. -/
 theorem solutions_equal (inp : Input) (eqs : List Eqn) (h : expand inp = .ok eqs)
-    (σ : String → K) : Sol eqs σ ↔ RefSol inp σ := by
-  obtain ⟨_, st, _, he, adv, inv⟩ := expand_ok inp eqs h
-  subst he
-  obtain ⟨comp, cover, _⟩ := inv.sets
-  unfold finish
-  rw [sol_append, sol_append]
-  -- the three groups of equations, one by one
-  have hp : Sol st.eqs σ ↔ ∀ p ∈ potEdges inp.edges, σ p.1 = σ p.2 := by
-    rw [adv.eqs]
-    simp only [St.init, List.nil_append, Sol, List.mem_map]
-    constructor
-    · intro h1 p hp
-      exact h1 _ ⟨p, hp, rfl⟩
-    · rintro h1 e ⟨p, hp, rfl⟩
-      exact h1 p hp
-  have hf : Sol ((distinctSets st.fc).map sumEqn) σ ↔
-      ∀ S, IsComponent (flowEdges inp.edges) S → (S.map (signed σ)).sum = 0 := by
-    simp only [Sol, List.mem_map]
-    constructor
-    · intro h1 S' hS'
-      obtain ⟨nd', k0, t0, m0⟩ := hS'
-      obtain ⟨S, hS, hk0⟩ := cover k0 t0
-      obtain ⟨nd, k1, _, m1⟩ := comp S hS
-      have hperm : S.Perm S' := by
-        rw [List.perm_ext_iff_of_nodup nd nd']
-        intro k
-        rw [m1, m0]
-        have c10 : Conn (flowEdges inp.edges) k1 k0 := (m1 k0).1 hk0
-        constructor
-        · exact fun c => c10.symm.trans c
-        · exact fun c => c10.trans c
-      have := (sumEqn_holds S σ).1 (h1 _ ⟨S, hS, rfl⟩)
-      rw [← perm_sum (hperm.map (signed σ))]
-      exact this
-    · rintro h1 e ⟨S, hS, rfl⟩
-      exact (sumEqn_holds S σ).2 (h1 S (comp S hS))
-  have hz : Sol (st.disc.map Eqn.zero) σ ↔
-      ∀ f ∈ inp.flowSyms, (∀ b, ¬ Touched (flowEdges inp.edges) (f, b)) → σ f = 0 := by
-    simp only [Sol, List.mem_map]
-    constructor
-    · intro h1 f hf ht
-      have : f ∈ st.disc := (adv.disc f).2 ⟨hf, (touched_key_iff _ f).1 ht⟩
-      exact h1 _ ⟨f, this, rfl⟩
-    · rintro h1 e ⟨f, hf, rfl⟩
-      have := (adv.disc f).1 hf
-      exact h1 f this.1 ((touched_key_iff _ f).2 this.2)
-  rw [hp, hf, hz, potential_equiv]
+    (hp : inp.policy = .byName) (σ : String → K) : Sol eqs σ ↔ RefSol inp σ := by
+  rw [sol_core inp eqs h σ, hp]
   constructor
-  · rintro ⟨⟨a, b⟩, c⟩
-    exact ⟨a, b, c⟩
+  · rintro ⟨a, b, c⟩
+    refine ⟨a, b, ?_⟩
+    intro f hf ht
+    apply c f hf
+    rw [mem_popped_byName]
+    rintro ⟨b', hb'⟩
+    exact ht b' hb'
   · intro r
-    exact ⟨⟨r.potential, r.flow⟩, r.unconnected⟩
+    refine ⟨r.potential, r.flow, ?_⟩
+    intro f hf hn
+    apply r.unconnected f hf
+    intro b hb
+    exact hn ((mem_popped_byName _ f).2 ⟨b, hb⟩)
 
 -- non-vacuity: the small circuit is accepted and yields two potential equations, one mixed
 -- inside/outside flow sum and one zero
@@ -207,11 +157,96 @@ example : expand exInput = .ok [.pot "c1.a.v" "c2.a.v", .pot "o.v" "c1.a.v",
 
 end Algebra
 
+/-! ## Hierarchical models: the face-wise rule of the Modelica specification -/
+
+section Face
+variable {K : Type} [AddCommGroup K]
+
+/-- With the pop rule of `proposed_fixes/C09-1.diff` (`byFace`) the derived equations have exactly
+    the solutions of the face-wise reference semantics, for every hierarchical flat class. -/
+theorem solutions_equal_face (inp : Input) (eqs : List Eqn) (h : expand inp = .ok eqs)
+    (hp : inp.policy = .byFace) (σ : String → K) : Sol eqs σ ↔ RefSolFace inp σ := by
+  rw [sol_core inp eqs h σ, hp]
+  constructor
+  · rintro ⟨a, b, c⟩
+    refine ⟨a, b, ?_⟩
+    intro f hf h1 h2
+    apply c f hf
+    rw [mem_popped_byFace]
+    rintro (q | q)
+    · exact h1 q
+    · exact h2 q
+  · intro r
+    refine ⟨r.potential, r.flow, ?_⟩
+    intro f hf hn
+    apply r.unconnected f hf
+    · exact fun q => hn ((mem_popped_byFace _ f).2 (Or.inl q))
+    · exact fun q => hn ((mem_popped_byFace _ f).2 (Or.inr q))
+
+example : expand (exNested .byFace) = .ok [.pot "c.p.v" "c.r.a.v",
+    .sum [("c.p.i", true), ("c.r.a.i", false)], .zero "c.p.i"] := by decide
+
+/-- The code as it stands (`byName`) agrees with the face-wise semantics exactly under the
+    hypothesis the proof cannot do without: no flow of a nested connector is connected only through
+    its outside face (known finding C09-F1 is the failure of this hypothesis).  In particular it
+    holds for every single-level model — component connectors and top-level connectors — which is
+    the graph domain the property names. -/
+theorem solutions_equal_face_of_closed (inp : Input) (eqs : List Eqn) (h : expand inp = .ok eqs)
+    (hp : inp.policy = .byName)
+    (closed : ∀ f ∈ inp.flowSyms, Touched (flowEdges inp.edges) (f, false) →
+      Touched (flowEdges inp.edges) (f, true) ∨ TouchedTop inp.edges f)
+    (σ : String → K) : Sol eqs σ ↔ RefSolFace inp σ := by
+  rw [sol_core inp eqs h σ, hp]
+  constructor
+  · rintro ⟨a, b, c⟩
+    refine ⟨a, b, ?_⟩
+    intro f hf h1 h2
+    apply c f hf
+    rw [mem_popped_byName]
+    rintro ⟨b', hb'⟩
+    cases b' with
+    | true => exact h1 hb'
+    | false =>
+      rcases closed f hf hb' with q | q
+      · exact h1 q
+      · exact h2 q
+  · intro r
+    refine ⟨r.potential, r.flow, ?_⟩
+    intro f hf hn
+    apply r.unconnected f hf
+    · exact fun q => hn ((mem_popped_byName _ f).2 ⟨true, q⟩)
+    · rintro ⟨e, he, v, hv, hc, q⟩
+      apply hn
+      rw [mem_popped_byName]
+      rcases q with ⟨_, q2⟩ | ⟨_, q2⟩
+      · exact ⟨e.linner, (touched_flowEdges _ f _).2 ⟨e, he, v, hv, hc, Or.inl ⟨q2, rfl⟩⟩⟩
+      · exact ⟨e.rinner, (touched_flowEdges _ f _).2 ⟨e, he, v, hv, hc, Or.inr ⟨q2, rfl⟩⟩⟩
+
+-- the hypothesis holds for the single-level circuit …
+example : ∀ f ∈ exInput.flowSyms, Touched (flowEdges exInput.edges) (f, false) →
+    Touched (flowEdges exInput.edges) (f, true) ∨ TouchedTop exInput.edges f := by
+  intro f hf ht
+  right
+  obtain ⟨e, he, v, hv, hc, q⟩ := (touched_flowEdges _ f false).1 ht
+  simp only [exInput, List.mem_cons, List.not_mem_nil, or_false] at he
+  rcases he with rfl | rfl
+  · rcases q with ⟨_, q⟩ | ⟨_, q⟩ <;> simp [Edge.linner, Edge.rinner] at q
+  · refine ⟨_, by simp [exInput], v, hv, hc, ?_⟩
+    rcases q with ⟨q1, _⟩ | ⟨_, q⟩
+    · exact Or.inl ⟨by decide, q1⟩
+    · simp [Edge.rinner] at q
+-- … and fails for the nested one, where the code as it stands emits no `c.p.i = 0`
+example : expand (exNested .byName) = .ok [.pot "c.p.v" "c.r.a.v",
+    .sum [("c.p.i", true), ("c.r.a.i", false)]] := by decide
+
+end Face
+
 /-- `solutions_equal` for the case the property names: values in a field. -/
 theorem solutions_equal_field {F : Type} [Field F] (inp : Input) (eqs : List Eqn)
-    (h : expand inp = .ok eqs) (σ : String → F) : Sol eqs σ ↔ RefSol inp σ :=
-  solutions_equal inp eqs h σ
+    (h : expand inp = .ok eqs) (hp : inp.policy = .byName) (σ : String → F) :
+    Sol eqs σ ↔ RefSol inp σ :=
+  solutions_equal inp eqs h hp σ
 
-example : ∃ eqs, expand exInput = .ok eqs := ⟨_, rfl⟩
+example : ∃ eqs, expand exInput = .ok eqs ∧ exInput.policy = .byName := ⟨_, rfl, rfl⟩
 
 end PymocaVerif.Connect
